@@ -1,0 +1,31 @@
+//go:build verif
+// +build verif
+
+package hotkey
+
+import "time"
+
+// This file only exists with the `verif` build tag. It exposes unexported
+// pieces of the package to the external verification harness.
+
+// VerifCollect runs one collection.
+func (c *Collector) VerifCollect() { c.collect() }
+
+// VerifEvictStale runs one eviction of stale keys.
+func (c *Collector) VerifEvictStale() { c.evictStale() }
+
+// VerifSetClock replaces the minute clock, it returns the previous one.
+func VerifSetClock(f func() int64) (old func() int64) {
+	old = nowInMinute
+	nowInMinute = f
+	return old
+}
+
+// VerifSetIntervals sets the default collect and evict intervals of
+// collectors created afterwards.
+func VerifSetIntervals(collectMs, evictMs int64) {
+	defaultCollectInterval = msDuration(collectMs)
+	defaultEvictInterval = msDuration(evictMs)
+}
+
+func msDuration(ms int64) time.Duration { return time.Duration(ms) * time.Millisecond }
